@@ -1011,7 +1011,22 @@ def run_program(program, sink="memory", opts=None, destinations=None, before=Non
             if interp.check_context and current_action() is not None:
                 run.context_errors.append("current_action() is not None at the end of the program")
 
-        contextvars.copy_context().run(go)
+        # Runaway recursion inside eliot must surface quickly (as a
+        # RecursionError out of an API call), not after minutes of formatting
+        # thousand-frame tracebacks: give the program a bounded stack budget.
+        import sys
+
+        depth = 0
+        frame = sys._getframe()
+        while frame is not None:
+            depth += 1
+            frame = frame.f_back
+        old_limit = sys.getrecursionlimit()
+        sys.setrecursionlimit(min(old_limit, depth + opts.get("stack_budget", 400)))
+        try:
+            contextvars.copy_context().run(go)
+        finally:
+            sys.setrecursionlimit(old_limit)
         if sink == "memorylogger":
             run.messages = list(run.memory_logger.messages)
         elif sink in ("file-b", "file-t"):
@@ -1153,7 +1168,7 @@ def program_features(program):
 TYPE_NAMES = ["app:a", "app:b", "app:c", "sys:x", "t", ""]
 
 
-def programs(max_nodes=12, faults=False, remote=True, kinds=None, msg_kinds=None, raises=True, preserve=True, max_depth=5, reenter=True, names=None):
+def programs(max_nodes=12, faults=False, remote=True, kinds=None, msg_kinds=None, raises=True, preserve=True, max_depth=5, reenter=True, names=None, values=None):
     """
     Strategy for programs.  Depth is drawn first so that deep nestings are
     as likely as shallow ones; `max_nodes` bounds the body sizes.
@@ -1166,7 +1181,7 @@ def programs(max_nodes=12, faults=False, remote=True, kinds=None, msg_kinds=None
         lambda kind, mtype, fields, typed: {"op": "msg", "kind": kind, "mtype": mtype, "fields": fields, "typed": typed},
         st.sampled_from(msg_kinds),
         st.sampled_from(TYPE_NAMES),
-        V.field_dicts(3, names),
+        V.field_dicts(3, names, values),
         sers,
     )
     tb = exc_idx.map(lambda i: {"op": "tb", "exc": i})
@@ -1191,8 +1206,8 @@ def programs(max_nodes=12, faults=False, remote=True, kinds=None, msg_kinds=None
             },
             st.sampled_from(kinds),
             st.sampled_from(TYPE_NAMES),
-            V.field_dicts(2, names),
-            V.field_dicts(2, names),
+            V.field_dicts(2, names, values),
+            V.field_dicts(2, names, values),
             body,
             sers,
             st.sampled_from([0, 0, 0, 1, 2]),
